@@ -341,6 +341,38 @@ def run(chk):
                 chk.violation('later_calls_behave_as_on_a_fresh_pool', {'scenario': sc}, {'op': opi, 'outcome': oo.get('outcome'), 'raised': oo.get('exc')},
                               'after a failed call later calls start fresh workers and succeed', input_class='stuck_after_failed_start')
                 break
+    # a call interrupted by Ctrl-C (at any moment, also inside the pool's deferred sections), then more calls on the same pool: they
+    # behave as on a fresh pool — correct results, and the SIGINT handler the caller had is in place again (a later interrupt
+    # would be acted on, not swallowed)
+    sh = []
+    for _ in range(60 if chk.tier == 'quick' else 900):
+        nj = rng.choice([1, 2, 3])
+        first = {'op': rng.choice(['map', 'imap', 'imap_unordered', 'map_unordered']), 'n': rng.randint(3, 10), 'chunk_size': rng.choice([1, 2]),
+                 'dur': {'kind': 'hash', 'salt': rng.randint(0, 99), 'unit': 0.01}}
+        if first['op'] in ('imap', 'imap_unordered') and rng.random() < .5:
+            first['consume'] = rng.randint(1, 2)
+            first['abandon'] = 'close'          # the pool's clean-up of a lazy call that is closed early runs in a deferred section
+        later = [{'op': rng.choice(['map', 'map_unordered', 'imap']), 'n': rng.randint(2, 8), 'chunk_size': 1} for _k in range(rng.randint(1, 2))]
+        sh.append({'seed': rng.randint(0, 10 ** 6), 'pool': {'n_jobs': nj, 'start_method': rng.choice(['fork', 'fork', 'threading']), 'keep_alive': rng.random() < .5},
+                   'ops': [first] + later, 'same_func': False, 'relax_shape': True, 'inject': [{'kind': 'sigint', 'point': rng.randint(3, 260)}]})
+    sobs = run_scenarios(chk, 'a call interrupted by Ctrl-C, then more calls on the same pool (DetSim)', sh, {'C01', 'C02', 'C03'},
+                         nontrivial=lambda sc, o: bool(o.get('injected')),
+                         dist=lambda sc, o: {'interrupt_landed_in_op': (o.get('injected') or {}).get('opi', 'x') if False else str(next((i for i, x in enumerate(o.get('ops', [])) if (x.get('exc') or {}).get('type') == 'KeyboardInterrupt'), 'none')),
+                                             'site': ((o.get('injected') or {}).get('site') or '-')[:40]})
+    for sc, o in zip(sh, sobs):
+        if o.get('harness_error') or o.get('stuck') or 'injected' not in o:
+            continue
+        ki = next((i for i, x in enumerate(o.get('ops', [])) if (x.get('exc') or {}).get('type') == 'KeyboardInterrupt'), None)
+        for opi, oo in enumerate(o.get('ops', [])):
+            if oo.get('outcome') == 'raise' and opi != ki:
+                chk.violation('later_calls_behave_as_on_a_fresh_pool', {'scenario': sc}, {'op': opi, 'raised': oo.get('exc'), 'interrupted_op': ki},
+                              'after an interrupted call later calls succeed', input_class='call_fails_after_interrupt')
+                break
+        if o.get('sigint_handler_after') != o.get('sigint_handler_before'):
+            chk.violation('later_calls_behave_as_on_a_fresh_pool', {'scenario': sc}, {'sigint_handler_before': o.get('sigint_handler_before'), 'after': o.get('sigint_handler_after'),
+                                                                                    'injected': o.get('injected')},
+                          'after an interrupted call the caller\'s SIGINT handler is in place again: a later interrupt is acted on as on a fresh pool',
+                          input_class='stale_sigint_handler_after_interrupt')
     ks = kill_histories(rng, 120 if chk.tier == 'quick' else 2000)
     kobs = run_scenarios(chk, 'histories in which a worker is killed inside a task, then the pool is used again (DetSim)', ks, {'C06', 'C01', 'C02'},
                          nontrivial=lambda sc, o: bool(o.get('injected')),
